@@ -78,12 +78,32 @@ def nontrivial(line, obs):
     return True
 
 
+def gen_json(tier, rng):
+    from gen import docs as D
+    from gen import c05
+    out = []
+    for fam in ("err-basic", "err-device", "err-revocation"):
+        out += D.gen_decode(fam, tier, rng, n_docs=(150 if tier == "quick" else 8000))
+    kinds = ["code", "refresh", "password", "cc", "introspect", "devauth", "revoke"]
+    i = 0
+    for code in CODES + ["Invalid_Grant", "custom_code", "", "日本"]:
+        for d in (None, "desc é", ""):
+            for u in (None, "https://e/x"):
+                for kind in kinds:
+                    i += 1
+                    m = [("error", code)] + ([("error_description", d)] if d is not None or i % 2 else []) + ([("error_uri", u)] if u is not None or i % 3 == 0 else [])
+                    body = D.render(D.obj(D.shuffled(m + D.unknown_members(rng, D.ERROR_KNOWN), rng)), rng)
+                    out.append((c05.http_line("sync" if i % 2 else "async", kind, False, [400, 401, 403, 500, 503][i % 5], [None, b"application/json", b"text/plain"][i % 3], body), "http/" + kind))
+    return out
+
+
 def run(tier, rng, C):
-    cases = gen(tier, rng)
-    v, stats = C.differential("C14", cases, nontrivial=lambda l, o: not o.startswith("Extension x "))
+    cases = gen(tier, rng) + gen_json(tier, rng)
+    v, stats = C.differential("C14", cases, nontrivial=lambda l, o: not o.startswith("Extension x ") and o != "err")
     stats["rule"] = ("3 families x (11 defined codes x all single-letter case flips, prefixes/suffixes, look-alikes) "
                      "+ exotic + random edits of defined codes; description/URI from {absent, empty, ASCII, Unicode, look-alikes of the rendering}; "
-                     "distinct = distinct protocol lines; non-trivial = every case except a basic-family plain extension")
+                     "error documents of the three families decoded from JSON text (member order, whitespace, escaping, unknown members, null/absent description and URI, positional array form, corruptions, malformed text) with a serialise/read-back round trip, "
+                     "and through non-200 replies on 7 request kinds; distinct = distinct protocol lines; non-trivial = every case except a basic-family plain extension or a rejected document")
     return v, stats
 
 
